@@ -117,6 +117,7 @@ type fn struct {
 	heldCalls map[[2]string]bool  // (mutex key, callee)
 	calls     map[string]bool     // every resolved callee (for the closure)
 	leaks     map[string]bool     // mutex key still held at a return / at the end
+	heldAcq   map[[2]string]bool  // (mutex held, OTHER mutex acquired lexically under it)
 	recvName  string
 	recvType  string
 }
@@ -242,6 +243,8 @@ func (f *fn) exprCalls(n ast.Node, st *state) {
 				for h := range st.held {
 					if h == k {
 						f.heldCalls[[2]string{h, "<relock>"}] = true
+					} else {
+						f.heldAcq[[2]string{h, k}] = true
 					}
 				}
 				st.held[k] = true
@@ -496,7 +499,7 @@ func main() {
 	}
 	var fns []*fn
 	for _, d := range decls {
-		f := &fn{acquires: map[string]bool{}, heldCalls: map[[2]string]bool{}, calls: map[string]bool{}, leaks: map[string]bool{}}
+		f := &fn{acquires: map[string]bool{}, heldCalls: map[[2]string]bool{}, calls: map[string]bool{}, leaks: map[string]bool{}, heldAcq: map[[2]string]bool{}}
 		f.name = d.Name.Name
 		if d.Recv != nil && len(d.Recv.List) == 1 {
 			f.recvType = typeName(d.Recv.List[0].Type)
@@ -565,7 +568,7 @@ func main() {
 	}
 	var kept []*fn
 	for _, f := range fns {
-		inS := len(f.acquires) > 0 || len(f.heldCalls) > 0 || len(f.leaks) > 0
+		inS := len(f.acquires) > 0 || len(f.heldCalls) > 0 || len(f.leaks) > 0 || len(f.heldAcq) > 0
 		if !inS && !inR[f.name] {
 			continue
 		}
@@ -661,7 +664,16 @@ func main() {
 		if i == len(fns)-1 {
 			sep = ""
 		}
-		fmt.Fprintf(&b, "  ⟨%d, %s, %s, [%s], %s, %s⟩%s  -- %s\n", i, ints(acq), ints(calls), strings.Join(hc, ", "), ints(relock), ints(leaks), sep, f.name)
+		var ha []string
+		var hak [][2]string
+		for k := range f.heldAcq {
+			hak = append(hak, k)
+		}
+		sort.Slice(hak, func(a, b int) bool { return hak[a][0]+"|"+hak[a][1] < hak[b][0]+"|"+hak[b][1] })
+		for _, k := range hak {
+			ha = append(ha, fmt.Sprintf("(%d, %d)", mid[k[0]], mid[k[1]]))
+		}
+		fmt.Fprintf(&b, "  ⟨%d, %s, %s, [%s], %s, %s, [%s]⟩%s  -- %s\n", i, ints(acq), ints(calls), strings.Join(hc, ", "), ints(relock), ints(leaks), strings.Join(ha, ", "), sep, f.name)
 	}
 	b.WriteString("]\n\n/-- Request / Oneway of the client transports (the calls C13 bounds by the FContext timeout). -/\ndef callRoots : List Nat := [")
 	for i, rt := range callRoots {
